@@ -232,7 +232,7 @@ def run_check(mod, tier: str, seed: int) -> int:
     env.setdefault("PYTHONHASHSEED", "0")
     env["PYTHONPATH"] = VERIF_DIR + os.pathsep + env.get("PYTHONPATH", "")
     for k in range(nshards):
-        out = os.path.join(OUT_DIR, f"{mod.ID}-{tier}-{seed}-{k}.json")
+        out = os.path.join(OUT_DIR, f"{mod.ID}-{tier}-{seed}-{os.getpid()}-{k}.json")
         if os.path.exists(out):
             os.remove(out)
         outs.append(out)
